@@ -74,7 +74,7 @@ func profileFor(prop, tier string, rng *PRNG) *Profile {
 		boost("rollback", 3)
 		boost("aolAdv", 4)
 		boost("authz", 3)
-		p.PBootstrap, p.Seeded = 0.08, 0.6 // "the writer list changes only through transactions of the owner" - also across export/import
+		p.PBootstrap, p.Seeded = 0.12, 0.7 // "the writer list changes only through transactions of the owner" - also across export/import
 	case "C03":
 		only("did", "didAdv", "replay", "rollback")
 		boost("rollback", 2)
